@@ -228,3 +228,36 @@ Theorem C14_kkt_ok_sound :
 Proof. move=> F order n ys lam lam' eps nu Ho; exact: (kkt_ok_sound Ho). Qed.
 Print Assumptions C14_kkt_ok_sound.
 
+
+(* 7b. the same on the lists lonf puts into the returned Series *)
+Theorem C14_l1_variant_identity :
+  forall (F : realFieldType) (qp : forall m, 'M[F]_m -> 'cV[F]_m -> F -> 'cV[F]_m) (order : nat) (lam : F)
+         (ys : list F) (i : nat),
+  (i < length ys)%N ->
+  List.nth i (fst (l1_variant O qp order lam ys)) 0 + List.nth i (snd (l1_variant O qp order lam ys)) 0
+  = List.nth i ys 0.
+Proof. move=> F; exact: l1_variant_identity. Qed.
+Print Assumptions C14_l1_variant_identity.
+
+(* 9b. non-vacuity of the KKT premise, and "nothing to smooth": when the order-th differences of the data
+       vanish, nu = 0 is a KKT point and the data are returned unchanged *)
+Theorem C14_l1_kkt_zero :
+  forall (F : realFieldType) (order n : nat) (ys : list F) (lam : F),
+  0 < lam -> l1_D O order n *m l1_y O n ys = 0 ->
+  let qp0 := fun m (_ : 'M[F]_m) (_ : 'cV[F]_m) (_ : F) => (0 : 'cV[F]_m) in
+  box_kkt (l1_nu O qp0 order n lam ys) lam
+          (l1_H O order n *m l1_nu O qp0 order n lam ys + l1_f O order n ys)
+  /\ l1_trend_vec O qp0 order n lam ys = l1_y O n ys.
+Proof. move=> F; exact: l1_kkt_zero. Qed.
+Print Assumptions C14_l1_kkt_zero.
+
+(* 11. what the correspondence case files evaluate (hpf_model: one solve per variant, any carrier) is,
+       value by value, the functions hpf_trend_at / hpf_gap_at that the theorems above speak about *)
+Theorem C14_model_pointwise :
+  forall (Ops : MatOps) (solve : forall n, mx Ops n n -> mx Ops n 1 -> mx Ops n 1) (lg ex : sc Ops -> sc Ops)
+         (a : hp_args Ops) (w : Z) (len : nat),
+  hpf_model Ops solve lg ex a w len =
+  List.map (fun v => (List.map (hpf_trend_at Ops solve lg ex a v) (window w len),
+                      List.map (hpf_gap_at Ops solve lg ex a v) (window w len))) (a_vars Ops a).
+Proof. exact: hpf_model_pointwise. Qed.
+Print Assumptions C14_model_pointwise.
